@@ -8,6 +8,8 @@ mod hwwalk;
 mod irqsim;
 mod refmodel;
 mod simphys;
+#[cfg(not(miri))]
+mod softmmu;
 mod trapemu;
 mod props;
 mod util;
